@@ -59,9 +59,9 @@ def _gen_goal(tape, ctx, flavour, strategy, mode):
         for _ in range(n):
             c = bp.gen_term(tape, bp.BOOL, 1, ctx)
             if real_w:
-                w = [tape.rint(1, 5, "w.num"), tape.choice([1, 2, 3], "w.den")]
+                w = [tape.choice([1, 2, 3, 5, -1, -3], "w.num"), tape.choice([1, 2, 3], "w.den")]
             else:
-                w = tape.rint(1, 4, "w.int")
+                w = tape.choice([1, 2, 3, 4, 1, 2, -1, -2], "w.int")
             soft.append([c, w])
         return {"kind": "maxsmt", "soft": soft, "real_w": real_w, "signed": False}
     nt = 1 if k in ("min", "max") else tape.rint(1, 3, "goal.nterms")
@@ -132,7 +132,22 @@ def gen_plan(tape, cfg):
             strategy = tape.choice(["linear", "binary"], "strategy")
             ng = 1 if mode == "single" else tape.rint(1, 3, "ngoals")
             goals = [_gen_goal(tape, ctx, flavour, strategy, mode) for _ in range(ng)]
-            ops.append({"op": "optimize", "mode": mode, "strategy": strategy, "goals": goals})
+            o = {"op": "optimize", "mode": mode, "strategy": strategy, "goals": goals}
+            prev = [j for j, po in enumerate(ops) if po["op"] == "optimize" and po["mode"] in ("single", "boxed")
+                    and po["goals"][0]["kind"] == "maxsmt" and not po["goals"][0]["real_w"]
+                    and "reuse" not in po]
+            if prev and mode in ("single", "boxed") and tape.chance(1, 2, "reuse.goal"):
+                # the client keeps the MaxSMT goal object of an earlier call, adds soft clauses to it
+                # and optimises again
+                j = tape.choice(prev, "reuse.which")
+                base = ops[j]["goals"][0]
+                extra = [[bp.gen_term(tape, bp.BOOL, 1, ctx), tape.choice([1, 2, 3, -1], "reuse.w")]
+                         for _ in range(tape.rint(1, 2, "reuse.n"))]
+                o["reuse"] = j
+                o["goals"] = [dict(base, soft=base["soft"] + extra, real_w=False,
+                                   soft_extra=extra)]
+                o["strategy"] = ops[j]["strategy"]
+            ops.append(o)
     faults = {}
     if tape.chance(1, 6, "faulty?"):
         faults["unknown_at"] = [tape.rint(1, 12, "unknown.k")]
@@ -371,6 +386,8 @@ def execute(plan, tape):
 
     ops = list(plan["ops"])
     depth = 0
+    goal_objs = {}      # op index -> the MaxSMTGoal object used there (clients may keep and extend it)
+    goal_bps = {}
     for i, o in enumerate(ops):
         k = o["op"]
         if k == "assert":
@@ -406,7 +423,22 @@ def execute(plan, tape):
             if strategy == "binary":
                 goals = [dict(g, real_w=False, soft=[[c, (w if not isinstance(w, list) else w[0])] for c, w in g["soft"]])
                          if g["kind"] == "maxsmt" else g for g in goals]
-            pgoals = [_build_goal(g, env) for g in goals]
+            reuse_from = goal_objs.get(o.get("reuse")) if o.get("reuse") is not None else None
+            if reuse_from is not None and goals and goals[0]["kind"] == "maxsmt" and "soft_extra" in goals[0] \
+                    and not any(isinstance(w_, list) for _, w_ in goals[0]["soft"]):
+                g_obj = reuse_from
+                for c_, w_ in goals[0]["soft_extra"]:
+                    g_obj.add_soft_clause(bp.build(c_, env), _w(w_))
+                # the blueprint of the goal is what the object now holds
+                goals = [dict(goals[0], soft=goal_bps[o["reuse"]] + goals[0]["soft_extra"])]
+                goal_bps[o["reuse"]] = list(goals[0]["soft"])     # mirrors what the object now holds
+                pgoals = [g_obj]
+                probe("maxsmt_goal_object_reused")
+            else:
+                pgoals = [_build_goal(g, env) for g in goals]
+            if goals and goals[0]["kind"] == "maxsmt" and mode in ("single", "boxed") and reuse_from is None:
+                goal_objs[i] = pgoals[0]
+                goal_bps[i] = list(goals[0]["soft"])
             models = all_models()
             # adversary: progress of a row w.r.t. the first goal
             g0 = goals[0]
